@@ -166,3 +166,5 @@ func (w *zzMgrWorld) checkAddress(is *zzIssued, ma ManagedAddress, label string)
 		verifrt.Reach("privkey-checked")
 	}
 }
+
+func zzNewParams() *chaincfg.Params { return &chaincfg.MainNetParams }
